@@ -221,11 +221,74 @@ class Effects:
         self.user_params_cache: Dict[str, Set[str]] = {}
 
     # ----------------------------------------------------- local role env
-    def _role_env(self, f: Func, live: List[ast.AST]) -> Dict[str, Set[str]]:
+    def _helper_return_roles(self, f: Func, call: ast.Call, consts: Dict[str, object], depth: int = 0) -> Set[str]:
+        """Roles of the value returned by a private helper method `self.m(...)`,
+        specialised on the constant arguments of this call."""
+        if depth > 2 or not (isinstance(call.func, ast.Attribute) and is_self_attr(call.func)):
+            return set()
+        cls = self.r.self_class(f)
+        if not cls:
+            return set()
+        m = self.p.lookup_method(cls, call.func.attr)
+        if m is None or m is f:
+            return set()
+        pos = m.params()[1:]
+        cc: Dict[str, object] = {}
+        for i, a in enumerate(call.args):
+            if i < len(pos):
+                v = const_value(a)
+                if v is not NOCONST:
+                    cc[pos[i]] = v
+                elif isinstance(a, ast.Name) and a.id in consts:
+                    cc[pos[i]] = consts[a.id]
+        for k in call.keywords:
+            if k.arg:
+                v = const_value(k.value)
+                if v is not NOCONST:
+                    cc[k.arg] = v
+                elif isinstance(k.value, ast.Name) and k.value.id in consts:
+                    cc[k.arg] = consts[k.value.id]
+        live = live_nodes(m.body, cc)
+        env2 = self._role_env(m, live, cc, depth + 1)
+        out: Set[str] = set()
+        for n in live:
+            if isinstance(n, ast.Return) and n.value is not None:
+                out |= self.expr_roles(n.value, self.roles.get(cls), env2)
+        return out
+
+    def _storage_return_roles(self, f: Func, call: ast.Call) -> Set[str]:
+        """Roles of what a storage method hands back to a caller outside the storage classes
+        (does `read()` return the primary list itself?)."""
+        out: Set[str] = set()
+        for tg in self.r.resolve_call(call, f, quiet=True):
+            if not isinstance(tg, Func) or tg.cls not in self.roles:
+                continue
+            seen = set()
+            todo = [tg]
+            while todo:
+                m = todo.pop()
+                if m.qual in seen:
+                    continue
+                seen.add(m.qual)
+                live = live_nodes(m.body, {})
+                env2 = self._role_env(m, live, {}, 1)
+                rl = self.roles.get(m.cls) or self.roles.get(tg.cls)
+                for n in live:
+                    if isinstance(n, ast.Return) and n.value is not None:
+                        out |= {r for r in self.expr_roles(n.value, rl, env2) if r in ("MEM", "TMEM", "PRIMARY", "TEMP")}
+                        if isinstance(n.value, ast.Call):
+                            for t2 in self.r.resolve_call(n.value, m, quiet=True):
+                                if isinstance(t2, Func):
+                                    todo.append(t2)
+        return out
+
+    def _role_env(self, f: Func, live: List[ast.AST], consts: Optional[Dict[str, object]] = None,
+                  depth: int = 0) -> Dict[str, Set[str]]:
         """Roles of local names (flow-insensitive over live code)."""
         cls = self.r.self_class(f)
         roles = self.roles.get(cls) if cls else None
         env: Dict[str, Set[str]] = {}
+        consts = consts or {}
         changed = True
         n_iter = 0
         while changed and n_iter < 5:
@@ -234,6 +297,10 @@ class Effects:
             for n in live:
                 if isinstance(n, ast.Assign) and len(n.targets) == 1 and isinstance(n.targets[0], ast.Name):
                     rs = self.expr_roles(n.value, roles, env)
+                    if not rs and isinstance(n.value, ast.Call) and roles is not None:
+                        rs = self._helper_return_roles(f, n.value, consts, depth)
+                    if not rs and isinstance(n.value, ast.Call) and roles is None and depth == 0:
+                        rs = self._storage_return_roles(f, n.value)
                     if rs:
                         cur = env.setdefault(n.targets[0].id, set())
                         if not rs <= cur:
@@ -490,7 +557,7 @@ class Effects:
         live = live_nodes(f.body, consts)
         cls = self.r.self_class(f)
         roles = self.roles.get(cls) if cls else None
-        env = self._role_env(f, live)
+        env = self._role_env(f, live, consts)
         out: Set[Effect] = set()
         here = lambda n: ((f.qual, getattr(n, "lineno", f.lineno)),)
         for n in live:
